@@ -256,16 +256,24 @@ func (m *BaseUndoLogManager) Undo(ctx context.Context, dbType types.DBType, xid 
 	if err != nil {
 		return err
 	}
+	// the connection goes back to the pool whatever happens; clean-up failures are logged and
+	// never replace the result of the undo itself
+	defer func() {
+		if closeErr := conn.Close(); closeErr != nil {
+			log.Errorf("conn close fail, xid: %s, branchID:%d err:%v", xid, branchID, closeErr)
+		}
+	}()
 
 	tx, err := conn.BeginTx(ctx, &sql.TxOptions{})
 	if err != nil {
 		return err
 	}
+	committed := false
 	defer func() {
-		if err != nil {
-			if err = tx.Rollback(); err != nil {
-				log.Errorf("rollback fail, xid: %s, branchID:%s err:%v", xid, branchID, err)
-				return
+		// every exit that did not commit (an error, or nothing to undo) ends the local transaction
+		if !committed {
+			if rollbackErr := tx.Rollback(); rollbackErr != nil {
+				log.Errorf("rollback fail, xid: %s, branchID:%d err:%v", xid, branchID, rollbackErr)
 			}
 		}
 	}()
@@ -276,9 +284,8 @@ func (m *BaseUndoLogManager) Undo(ctx context.Context, dbType types.DBType, xid 
 		return err
 	}
 	defer func() {
-		if err = stmt.Close(); err != nil {
-			log.Errorf("stmt close fail, xid: %s, branchID:%s err:%v", xid, branchID, err)
-			return
+		if closeErr := stmt.Close(); closeErr != nil {
+			log.Errorf("stmt close fail, xid: %s, branchID:%d err:%v", xid, branchID, closeErr)
 		}
 	}()
 
@@ -288,9 +295,8 @@ func (m *BaseUndoLogManager) Undo(ctx context.Context, dbType types.DBType, xid 
 		return err
 	}
 	defer func() {
-		if err = rows.Close(); err != nil {
-			log.Errorf("rows close fail, xid: %s, branchID:%s err:%v", xid, branchID, err)
-			return
+		if closeErr := rows.Close(); closeErr != nil {
+			log.Errorf("rows close fail, xid: %s, branchID:%d err:%v", xid, branchID, closeErr)
 		}
 	}()
 
@@ -335,9 +341,6 @@ func (m *BaseUndoLogManager) Undo(ctx context.Context, dbType types.DBType, xid 
 		}
 
 		sqlUndoLogs := branchUndoLog.Logs
-		if len(sqlUndoLogs) == 0 {
-			return nil
-		}
 		branchUndoLog.Reverse()
 
 		for _, undoLog := range sqlUndoLogs {
@@ -377,9 +380,10 @@ func (m *BaseUndoLogManager) Undo(ctx context.Context, dbType types.DBType, xid 
 	}
 
 	if err = tx.Commit(); err != nil {
-		log.Errorf("[Undo] execute on fail, err: %v", err)
-		return nil
+		log.Errorf("[Undo] commit fail, err: %v", err)
+		return err
 	}
+	committed = true
 	return nil
 }
 
